@@ -15,6 +15,12 @@ TEXT = {
  'C06': ("logical time: the deadline is examined at loop tops only (model); on the implementation a virtual clock (hook) makes time a scripted counter, the monitor flags an iteration that starts after the deadline (C06/deadline-at-top), a call that never returns (C06/no-return) or an unbounded motion check (C06/unbounded); model invariant Ok => goal reachable through valid points", "6 C06"),
  'C07': ("generator provenance in the models (C07_Provenance with the RestoreRng / SetupUsesPlannerRng switches); on the implementation two instances with the same seed are driven through every TLC-generated call history and the monitor requires identical generator draws and results call by call (C07/stream, C07/result)", "6 C07"),
  'C08': ("TLC enumerates every call sequence up to the bound for every fault (sampler failing at its k-th call, goal bias outside [0,1], empty start list) from PlannerAPI.tla; each is executed on the real planners under catch_unwind and the monitor enforces the allowed outcome table and 'never a panic' (C08/outcome, C08/panic@site); all other engines' runs feed C08/panic as well", "6 C08"),
+ 'C09': ("exact lattice models (Spaces.tla: SO(2) ring, integer R^n, SO(3) axis subgroups and the binary tetrahedral group) on which TLC checks the metric axioms, representation independence and the diameter; every lattice pair and its ulp / 2*pi / sign representatives is evaluated on the real distance functions and TLC (TraceSpaces.tla) recomputes the expected value from the model and compares it with the implementation's, and enforces symmetry / identity / triangle / diameter measured on the implementation's own values", "6 C09"),
+ 'C10': ("model law D(a,I(a,b,t)) = t D(a,b), endpoints, reversal checked by TLC on the lattice models; every lattice (a,b,t) evaluated on the real interpolate, expected position recomputed by TLC from the model (either arc at exactly antipodal pairs), canonical form, reversal and proportionality measured on the implementation", "6 C10"),
+ 'C11': ("for every constructible lattice bound setting and every lattice state and representative (far outside, on the boundary, non-canonical, scaled and zero quaternions) the composed facts satisfies(enforce(x)), idempotence, canonical result, untouched canonical in-bounds states are measured on the implementation and enforced by the TLC monitor together with agreement with the model's enforce set; samplers stay in bounds / report the unbounded-dimension error", "6 C11"),
+ 'C12': ("constructor contracts as a relation over a symbolic bound lattice (values beyond +-pi, +-inf, NaN, equal and inverted pairs, dimension/length combinations): well-formed in-range arguments must be accepted with the stored value, a returned space must have well-formed stored bounds and be usable (sample / enforce / satisfy without panic or hang), error kinds as documented; state constructors canonicalise (angle lattice x windings up to 1e3, magnitudes to 1e300; quaternion normalisation)", "6 C12"),
+ 'C13': ("generated layouts (1-4 components, weights 0 / tiny / 1 / large): the compound operation is compared with the same operation assembled from the real component spaces by the documented law (distance, component-wise interpolate / enforce / satisfy, resolution, one scripted word stream consumed in component order); SE(2)/SE(3) bitwise equal to the explicitly built compound with weights (1, w)", "6 C13"),
+ 'C14': ("sampler refinement, not goodness of fit: with a scripted generator the real samplers must map the word's top bits to the cell of an equal partition (a bijection, one word per coordinate, in order), take the SO(3) accept/reject decision of the exact integer ball test on the word lattice, output the radial projection, and reject (not clamp) out-of-cone candidates; TLC checks the accept set's symmetry on the cell lattice; Haar-uniformity of 'uniform in the ball, normalised' is the classical theorem (cited)", "6 C14"),
  'C15': ("model invariants C15_WellFormed / C15_CostMono in every reachable state (the <= rewiring mutant of the spec yields a cycle counterexample); the monitor rebuilds every tree from Push/Rewire hook events, checks parents, acyclicity at every rewire, cost monotonicity, and equality with the end-of-call snapshot", "6 C15"),
  'C16': ("monitor rules on every recorded iteration: parent in ArgMin of the logged distance ranks, steer rule (bitwise sample when near, exactly one step on the geodesic when far), nothing added on a blocked motion / something added on a free one (independent three-valued oracle), Bernoulli goal bias, RRT-Connect balance and single connect extension; TLC exhausts the bounded models", "6 C16"),
  'C17': ("RRTStar.tla carries plain RRT's tree in lock step: invariants C17_CostUpper, C17_LastStep (cheapest valid parent, exactly the strictly cheaper valid rewires, frame) and C17_VsRRT; the monitor checks cost equalities, best parent over oracle-free candidates, the rewire set and the frame condition on the implementation", "6 C17"),
@@ -52,6 +58,8 @@ m = {
            'source_commits': hooks_commits(), 'add_only': True},
  'engines': [
    {'name': 'lat:<planner>', 'path': 'spec/{RRT,RRTStar,RRTConnect,PRM}.tla + MC_*.tla, harness/src/bin/latreplay.rs, spec/TraceMonitor.tla', 'serves_properties': [p for p in PROPS if any(e.startswith('lat:') for e in PROPS[p]['engines'])], 'kind_free_text': 'TLC model checking of the planner spec; every emitted history replayed on the real planner over a lattice space; trace validated by the TLC monitor'},
+   {'name': 'real', 'path': 'harness/src/bin/realrun.rs, harness/src/annot.rs, spec/TraceMonitor.tla', 'serves_properties': [p for p in PROPS if 'real' in PROPS[p]['engines']], 'kind_free_text': 'real planners on the six real spaces, generated worlds, every iteration recorded and validated by the TLC monitor'},
+   {'name': 'spaces', 'path': 'spec/Spaces.tla, MC_Spaces.tla, TraceSpaces.tla, harness/src/bin/spaces.rs', 'serves_properties': ['C09','C10','C11','C12','C13','C14'], 'kind_free_text': 'exact lattice models; every lattice case evaluated on the real space functions and validated by TLC'},
    {'name': 'api:<planner>', 'path': 'spec/PlannerAPI.tla, MC_PlannerAPI.tla', 'serves_properties': ['C07', 'C08'], 'kind_free_text': 'call sequences x fault schedules enumerated by TLC, executed on two same-seed instances'},
  ],
  'checks': checks,
